@@ -110,6 +110,18 @@ def tree_hash():
     return h.hexdigest()
 
 
+def closure_hash(relpath):
+    """hash of a file and of everything of the project it (transitively) imports, plus the lakefile:
+    the cache key of its elaboration result and of its .olean"""
+    h = hashlib.sha256()
+    for rp in import_closure([relpath]) + ['lakefile.toml']:
+        p = os.path.join(LEAN, rp)
+        if os.path.exists(p):
+            h.update(rp.encode())
+            h.update(open(p, 'rb').read())
+    return h.hexdigest()
+
+
 def strip_comments(src):
     """remove Lean comments (nested block comments and line comments) for the forbidden-token grep"""
     out = []
@@ -170,7 +182,6 @@ def ensure_property_oleans(relpath, _seen=None):
     is the intended meaning: the importing theorems are no longer shown."""
     _seen = _seen if _seen is not None else set()
     text = open(os.path.join(LEAN, relpath)).read()
-    th = tree_hash()
     for m in re.finditer(r'^import\s+(PyaisVerif\.Properties\.[A-Za-z0-9_]+)', text, re.M):
         mod = m.group(1)
         rp = mod.replace('.', '/') + '.lean'
@@ -178,6 +189,7 @@ def ensure_property_oleans(relpath, _seen=None):
             continue
         _seen.add(rp)
         ensure_property_oleans(rp, _seen)
+        th = closure_hash(rp)
         odir = os.path.join(LEAN, '.lake', 'build', 'lib', 'lean', 'PyaisVerif', 'Properties')
         os.makedirs(odir, exist_ok=True)
         base = os.path.join(odir, os.path.basename(rp)[:-5])
@@ -202,7 +214,7 @@ def lean_check_file(relpath, use_cache=True):
     path = os.path.join(LEAN, relpath)
     cache_dir = os.path.join(LEAN, '.lake', 'propcache')
     os.makedirs(cache_dir, exist_ok=True)
-    key = hashlib.sha256((tree_hash() + relpath).encode()).hexdigest()
+    key = hashlib.sha256((closure_hash(relpath) + relpath).encode()).hexdigest()
     cpath = os.path.join(cache_dir, key + '.json')
     if use_cache and os.path.exists(cpath):
         res = json.load(open(cpath))
@@ -310,7 +322,7 @@ def leanchecker_file(relpath):
         if r.returncode != 0 or not os.path.exists(base + '.olean'):
             return {'ok': False, 'wall_s': round(time.time() - t0, 1), 'detail': 'no .olean: ' + (r.stdout + r.stderr)[-400:]}
         with open(base + '.olean.hash', 'w') as f:
-            f.write(tree_hash())
+            f.write(closure_hash(relpath))
     r = sh(['lake', 'env', 'leanchecker', mod], cwd=LEAN, timeout=6000)
     out = (r.stdout + r.stderr).strip()
     return {'ok': r.returncode == 0 and 'exception' not in out.lower() and 'error' not in out.lower(),
